@@ -19,11 +19,11 @@ func init() {
 		Cases: func(tier string) int {
 			switch tier {
 			case "thorough":
-				return 30000
+				return 100000
 			case "race":
 				return 1500
 			}
-			return 3000
+			return 15000
 		},
 		Run:            c16Run,
 		Floor:          func(tier string) int { return 800 },
